@@ -29,8 +29,8 @@ struct C07Case { int n = 64; bool at_end = true; uint64_t poolseed = 1; std::vec
 static std::string ser07(const C07Case &c) { std::string s = "C07|" + std::to_string(c.poolseed) + "|" + std::to_string(c.n) + "|" + (c.at_end ? "1" : "0"); for (auto &h : c.cmds) s += "|" + std::to_string(h.kind) + ":" + std::to_string(h.a) + ":" + std::to_string(h.b) + ":" + std::to_string(h.c); return s; }
 static bool parse07(const std::string &s, C07Case &c) { auto f = split(s, '|'); if (f.size() < 4 || f[0] != "C07") return false; c.poolseed = strtoull(f[1].c_str(), nullptr, 10); c.n = atoi(f[2].c_str()); c.at_end = f[3] == "1"; for (size_t i = 4; i < f.size(); i++) { auto q = split(f[i], ':'); if (q.size() != 4) return false; c.cmds.push_back({atoi(q[0].c_str()), atoi(q[1].c_str()), atoi(q[2].c_str()), atoi(q[3].c_str())}); } return true; }
 // a quarter of the programs consists of lines written as densely as possible (code as long as or longer than its text, more so with padding)
-static const char *DENSE[] = {"mov [0],-1", "call 0", "jmp 0", "mov [9],-1", "add [0],-1", "xbegin 0", "mov rax,-1", "push -1", "mov [rax],-1", "call 9", "nop9", "nop11"};
-static std::vector<std::string> lines_for(const Pool &P, int seed, int nlines, int badpos) { hz::Rng r((uint64_t)seed * 2654435761ULL + 29); std::vector<std::string> v; bool dense = seed % 4 == 3; nlines = 1 + (nlines % 24); for (int i = 0; i < nlines; i++) { if (badpos >= 0 && i == badpos % nlines) v.push_back(P.bad[r.below(P.bad.size())]); v.push_back(dense ? std::string(DENSE[r.below(12)]) : P.lines[r.below(P.lines.size())]); } return v; }
+static const char *DENSE[] = {"mov [0],-1", "call 0", "jmp 0", "mov [9],-1", "add [0],-1", "xbegin 0", "mov rax,-1", "push -1", "mov [rax],-1", "call 9", "nop9", "nop11", "nop 25", "nop 200", "nop11 11"};   /* the last three are no valid lines today: whatever a later version makes of them must stay inside the buffer too */
+static std::vector<std::string> lines_for(const Pool &P, int seed, int nlines, int badpos) { hz::Rng r((uint64_t)seed * 2654435761ULL + 29); std::vector<std::string> v; bool dense = seed % 4 == 3; nlines = 1 + (nlines % 24); for (int i = 0; i < nlines; i++) { if (badpos >= 0 && i == badpos % nlines) v.push_back(P.bad[r.below(P.bad.size())]); v.push_back(dense ? std::string(DENSE[r.below(15)]) : P.lines[r.below(P.lines.size())]); } return v; }
 static std::string text07(const C07Case &c) {
   std::string s = "buffer of " + std::to_string(c.n) + " bytes (" + (c.at_end ? "guard page right behind" : "guard page right in front") + "): "; char b[96];
   for (auto &h : c.cmds) { switch (h.kind) {
@@ -180,7 +180,9 @@ static GV check08(const Pool &P, const C08Case &c) {
       else if (memcmp(p, ext.data(), h1)) why = "the code in front of the gap changed";
       else if (memcmp(p + G, ext.data() + G, o1 - G)) why = "the code behind asm_set_offset(" + std::to_string(G) + ") differs from the caller-buffer result";
       v.growths = o1 > 6000 ? (o1 - 1) / 6000 : 0; v.near = true; }
+    if (&alw != nullptr) alw.bad_unmap = 0;
     asm_destroy_instance(in); asm_destroy_instance(ex);
+    if (why.empty() && &alw != nullptr && alw.bad_unmap) why = "asm_destroy_instance unmapped more than the buffer's (page-rounded) length (offset " + std::to_string(std::max(c.chunkv, 0)) + ")";
     if (!why.empty()) return bad("offset-beyond-length", why);
     return v; }
   while (total < target - taillen - 20) { const std::string &l = src[r.below(src.size())]; auto b = solo(l, c.combo); if (b.empty() || total + (long long)b.size() > target - taillen) continue; lines.push_back(l); total += b.size(); }
@@ -233,8 +235,10 @@ static GV check08(const Pool &P, const C08Case &c) {
     // the bytes beyond the re-assembled tail must still be the old ones
     int o2 = asm_get_offset(in); if (off > o2 && memcmp((const uint8_t *)asm_get_code(in) + o2, ext.data() + o2, off - o2)) { asm_destroy_instance(in); asm_destroy_instance(ex); return bad("bytes", "earlier code behind the re-assembled region changed"); }
   }
+  if (&alw != nullptr) alw.bad_unmap = 0;
   if (asm_destroy_instance(in) != 0) { asm_destroy_instance(ex); return bad("destroy", "asm_destroy_instance failed"); }
   asm_destroy_instance(ex);
+  if (&alw != nullptr && alw.bad_unmap) return bad("unmap-beyond-buffer", "asm_destroy_instance unmapped more than the buffer's (page-rounded) length");
   return v;
 }
 static hz::Failure fail08(const C08Case &c, const GV &v) { hz::Failure f; f.caseid = ser08(c); f.text = text08(c); f.symptom = v.symptom; f.detail = v.detail; f.tags = {"mn:growth", "form:internal", "sym:" + v.symptom}; return f; }
@@ -263,8 +267,8 @@ void prop_c08(hz::Ctx &ctx) {
     }
   }
   // positions set beyond the code and beyond the current length of the library-managed buffer
-  { static const int G[] = {0, 100, 5999, 6000, 6001, 6019, 6020, 6021, 7000, 8191, 8192, 8193, 12000, 12019, 12020, 12021, 12287, 12288, 12289, 18020, 20000, 65536, 100000, 1 << 20, 12001, 12005, 12010, 12015, 12018, 18001, 18010, 18019, 12022, 12030, 24000, 24015};
-    for (int gi = 0; gi < 36; gi++) for (int var = 0; var < (ctx.thorough() ? 12 : 3); var++) { if (!ctx.take()) continue; C08Case c; c.family = 3; c.chunkv = G[gi]; c.mode = (gi + var) % 3 == 2 ? 1 : 0; c.cidx = 5 + (gi + var) % 6; c.combo = (gi * 5 + var) % 12; c.safe = false; c.seed = ctx.seed * 53 + gi * 31 + var; c.poolseed = ctx.seed; run(c, "part:offset-beyond-length", false); } }
+  { static const int G[] = {0, 100, 5999, 6000, 6001, 6019, 6020, 6021, 7000, 8191, 8192, 8193, 12000, 12019, 12020, 12021, 12287, 12288, 12289, 18020, 20000, 65536, 100000, 1 << 20, 12001, 12005, 12010, 12015, 12018, 18001, 18010, 18019, 12022, 12030, 24000, 24015, 12268, 12267, 12269, 16364, 20460, 32748, 4076, 8172};
+    for (int gi = 0; gi < 44; gi++) for (int var = 0; var < (ctx.thorough() ? 12 : 3); var++) { if (!ctx.take()) continue; C08Case c; c.family = 3; c.chunkv = G[gi]; c.mode = (gi + var) % 3 == 2 ? 1 : 0; c.cidx = 5 + (gi + var) % 6; c.combo = (gi * 5 + var) % 12; c.safe = false; c.seed = ctx.seed * 53 + gi * 31 + var; c.poolseed = ctx.seed; run(c, "part:offset-beyond-length", false); } }
   // overhang family: chunk fitting pushes an instruction that started inside the 20-byte reserve rule to a position beyond the current capacity
   for (int q = 1; q <= 3; q++) for (int d = 0; d <= 8; d++) for (int j = 1; j <= 12; j++) for (int lsel = 0; lsel < 5; lsel++) {
     if (!ctx.thorough() && (q * 7 + d * 3 + j + lsel + ctx.seed) % 4) continue;
